@@ -15,6 +15,7 @@ MODULES = {
     "C02": "props_trace",
     "C03": "props_trace",
     "C07": "props_trace",
+    "C16": "props_c16",
 }
 
 
